@@ -3,7 +3,7 @@ Require Extraction.
 Require Import ExtrOcamlBasic.
 Extraction Language OCaml.
 Extraction "../ocaml/c15/model.ml" util_add util_mul util_divmod util_z
-  get_chunks send_snapshot stream_chunks path_base bad_name to_message
+  get_chunks send_snapshot stream_chunks stream_snapshot block_ranges path_base bad_name to_message
   init add tick close mark_removed step run
   snapshot_chunk_size snapshot_gc_tick snapshot_chunk_timeout_tick max_concurrent_slot
   transport_bin_version last_chunk_count snapshot_flag_filename snapshot_header_size block_file_magic
